@@ -87,7 +87,7 @@ theorem run_state_facts (env : Env) (fuel : Nat) (asl input ctx : Json) :
   have G : Grows {} (runCore env fuel asl input ctx).2 := by
     unfold runCore
     split
-    · exact (growsAll env fuel).runFrom _ _ _ _ _ _
+    · exact (growsAll (env.forMachine asl) fuel).runFrom _ _ _ _ _ _
     · exact Grows.refl _
   obtain ⟨evs, ts, hl, ht, hx, hb, _⟩ := G
   have hl' : (runCore env fuel asl input ctx).2.log = evs := by simpa using hl
@@ -122,7 +122,7 @@ theorem history_starts_and_ends (env : Env) (fuel : Nat) (asl input ctx : Json)
   obtain ⟨r, st⟩ := p
   cases r with
   | done d => exact ⟨.execSucceeded d, rfl, hx, Or.inl ⟨rfl, d, rfl, rfl⟩⟩
-  | failed e c f => exact ⟨.execFailed e c, rfl, hx, Or.inr ⟨rfl, e, rfl, rfl⟩⟩
+  | failed e c f => exact ⟨.execFailed (publicError e) c, rfl, hx, Or.inr ⟨rfl, publicError e, rfl, rfl⟩⟩
   | fuel => rcases hs with h | h <;> (simp only [Outcome.ofRun] at h; exact absurd h (by decide))
   | unsupported w => rcases hs with h | h <;> (simp only [Outcome.ofRun] at h; exact absurd h (by decide))
 
@@ -158,17 +158,22 @@ theorem taskCall_files_request_then_reply (st : St) (counts : List ((Str × Json
     (st.taskCall counts res p ev tEnd).log = ev :: .lambdaScheduled p res :: st.log ∧
     (st.taskCall counts res p ev tEnd).times = rmax st.clock tEnd :: st.clock :: st.times := ⟨rfl, rfl⟩
 
-/-- … in the Task state (the worker answers, or `TimeoutSeconds` runs out): the request, then directly the
+/-- … in the Task state (the worker answers, or the Task's own `TimeoutSeconds` runs out — `hT`: if the invocation
+ends by a time limit, the limit in force is, or coincides with, the Task's own): the request, then directly the
 outcome's event — a reply kind: `LambdaFunctionSucceeded`, `LambdaFunctionFailed` or `LambdaFunctionTimedOut` —;
-whatever the state does afterwards (ResultSelector, ResultPath, transition, Retry, Catch) comes later -/
+whatever the state does afterwards (ResultSelector, ResultPath, transition, Retry, Catch) comes later.
+(An invocation cut by the execution's time limit alone files the request and nothing else:
+`C08.task_cut_by_execution_files_request_only`.) -/
 theorem task_events_bracketed (env : Env) (fuel : Nat) (states : Json) (name fn : Str)
     (state data ctx input params : Json) (retries : Nat) (st : St) (tEnd : Rat) (timedOut : Bool)
     (h : stateType state = S "Task")
     (hr : rpcFunction ((fldStr state "Resource").getD []) = some fn)
     (hi : applyPath data ctx (pathArg state "InputPath") = .ok input)
     (hp : tmplOpt env input ctx (fld state "Parameters") = .ok params)
-    (ha : taskArrival (env.delay fn params (bump st.counts (fn, params)).1) (taskDeadline state st.clock) st.clock
-      = some (tEnd, timedOut)) :
+    (ha : taskArrival (env.delay fn params (bump st.counts (fn, params)).1)
+        ((taskLimit (taskDeadline state st.clock) env.deadline st.clock).map (·.t)) st.clock
+      = some (tEnd, timedOut))
+    (hT : timedOut = true → ∃ l, taskLimit (taskDeadline state st.clock) env.deadline st.clock = some l ∧ l.task = true) :
     (∃ later, (runState env (fuel + 1) states name state data ctx retries st).2.log =
       later ++ taskEv env.maxData (env.task fn params (bump st.counts (fn, params)).1) timedOut ::
         .lambdaScheduled params ((fldStr state "Resource").getD []) :: st.log) ∧
@@ -180,7 +185,13 @@ theorem task_events_bracketed (env : Env) (fuel : Nat) (states : Json) (name fn 
   have h5 : (S "Task" = S "Choice") = False := by decide
   have G := growsAll env fuel
   refine ⟨?_, (taskEv_plain _ _ _).2.2⟩
-  simp only [runState, h, h1, h2, h3, h4, h5, hr, hi, hp, St.closeKeep_counts, St.closeKeep_clock, ha, if_false, if_true]
+  have hbt : (timedOut && !(timedOut && (Option.map (·.task)
+      (taskLimit (taskDeadline state st.clock) env.deadline st.clock)).getD true)) = false := by
+    cases timedOut with
+    | false => rfl
+    | true => obtain ⟨l, hl, ht⟩ := hT rfl; simp [hl, ht]
+  simp only [runState, h, h1, h2, h3, h4, h5, hr, hi, hp, St.closeKeep_counts, St.closeKeep_clock, ha, if_false, if_true,
+    hbt, Bool.false_eq_true]
   generalize hst : (st.closeKeep.request timedOut).taskCall (bump st.counts (fn, params)).2 ((fldStr state "Resource").getD []) params
     (taskEv env.maxData (env.task fn params (bump st.counts (fn, params)).1) timedOut) tEnd = st1
   have hl : st1.log = taskEv env.maxData (env.task fn params (bump st.counts (fn, params)).1) timedOut ::
@@ -220,7 +231,7 @@ theorem notifications_shape (env : Env) (fuel : Nat) (asl input ctx : Json)
   obtain ⟨r, st⟩ := p
   cases r with
   | done d => exact ⟨d, rfl, Or.inl ⟨rfl, rfl⟩⟩
-  | failed e c f => exact ⟨errorOutput e c, rfl, Or.inr ⟨rfl, e, rfl, rfl⟩⟩
+  | failed e c f => exact ⟨errorOutput (publicError e) c, rfl, Or.inr ⟨rfl, publicError e, rfl, rfl⟩⟩
   | fuel => rcases hs with h | h <;> (simp only [Outcome.ofRun] at h; exact absurd h (by decide))
   | unsupported w => rcases hs with h | h <;> (simp only [Outcome.ofRun] at h; exact absurd h (by decide))
 
@@ -261,17 +272,21 @@ theorem refused_leave_logs_nothing (env : Env) (fuel : Nat) (states : Json) (nam
       simp [leave, hE', hn, hL]
 
 /-- a state whose error is neither retried nor caught logs no exit: a Task / Pass / … state leaves the
-log exactly as it was, a Parallel / Map state files `<Type>StateFailed` and nothing else -/
+log exactly as it was, a Parallel / Map state files `<Type>StateFailed` and nothing else — and when the error is the
+execution's time-out not even that (`handle_error` files no `…StateFailed` for it) -/
 theorem failed_state_logs_no_exit (env : Env) (fuel : Nat) (states : Json) (name : Str) (state data ctx : Json)
     (retries : Nat) (e msg : Str) (st : St)
     (h : decideError ((listOf (fld state "Retry")).map retrierOf) ((listOf (fld state "Catch")).map catcherOf)
       e retries = .uncaught) :
-    (handleErr env (fuel + 1) states name state data ctx retries e msg st).2 = (st.fanFailedIf state).failTok ∧
+    (handleErr env (fuel + 1) states name state data ctx retries e msg st).2 =
+      (if e = execTimeoutName then st else st.fanFailedIf state).failTok ∧
     (isFanOut (stateType state) = false → st.fanFailedIf state = st) ∧
-    (isFanOut (stateType state) = true → (st.fanFailedIf state).log = .fanFailed (stateType state) :: st.log) := by
-  refine ⟨by simp [handleErr, h], ?_, ?_⟩
+    (isFanOut (stateType state) = true → (st.fanFailedIf state).log = .fanFailed (stateType state) :: st.log) ∧
+    (e = execTimeoutName → (handleErr env (fuel + 1) states name state data ctx retries e msg st).2.log = st.log) := by
+  refine ⟨by simp [handleErr, h], ?_, ?_, ?_⟩
   · intro hf; simp [St.fanFailedIf, hf]
   · intro hf; simp [St.fanFailedIf, hf, St.push]
+  · intro he; subst he; simp [handleErr, h, St.failTok]
 
 /-- a caught state is exited (the engine files the Catcher's transition under the caught state's name)
 with the data handed to the Catcher's `Next`, before anything the successor logs -/
